@@ -314,6 +314,24 @@ func solveObligationLocked(mu *sync.Mutex, fr *FuncResult, o *Obligation, timeou
 			return
 		}
 	}
+	if r.Status != "sat" && r.Status != "unsat" && r.Status != "error" {
+		// last resort before an obligation is reported as not discharged: one long attempt (a
+		// timeout on a loaded machine must not become a false alarm)
+		last := sc
+		if cutScript != nil {
+			last = *cutScript
+		}
+		o.Retries++
+		r3 := runPortfolio(last.Text, 6*timeoutS, false)
+		o.Seconds += r3.Seconds
+		if r3.Status == "unsat" {
+			o.Status, o.Backend = "unsat", r3.Backend+" (long attempt)"
+			return
+		}
+		if r3.Status == "sat" {
+			r = r3
+		}
+	}
 	o.Status, o.Backend = r.Status, r.Backend
 	if r.Status != "unsat" {
 		o.Model = r.Output
